@@ -426,8 +426,11 @@ package zygo
 //@ C01,C04 pure
 //@ C01,C04 ensures r0 == nil
 //@ func (PrepareCallInstr).execute
-//@ ghost fo := ret0 @after call LexicalLookupSymbol[0]
-//@ C01,C04 ensures arity-of-a-tail-call-is-checked: r0 == nil && typeis(fo, *SexpFunction) && old(!fo.(*SexpFunction).user && !fo.(*SexpFunction).varargs) ==> c.nargs == old(fo.(*SexpFunction).nargs)
+//@ ghost fixedArity := false @entry
+//@ ghost fixedArity := typeis(ret0, *SexpFunction) && !ret0.(*SexpFunction).user && !ret0.(*SexpFunction).varargs @after call LexicalLookupSymbol[0]
+//@ ghost declared := 0 @entry
+//@ ghost declared := ite(typeis(ret0, *SexpFunction), ret0.(*SexpFunction).nargs, 0) @after call LexicalLookupSymbol[0]
+//@ C01,C04 ensures arity-of-a-tail-call-is-checked: r0 == nil && fixedArity ==> c.nargs == declared
 // mdef: every target slot is filled with a symbol before the value is compiled; the bind
 // instruction hands each one to BindSymbol, which dereferences it
 //@ func (*Generator).GenerateMultiDef
